@@ -238,6 +238,34 @@ def run(facts, tr, rep):
             none_like, some_like = _optionlike_labels(facts, b)
             if v == "Timeout":
                 ok = any(e["kind"] == "enum" and e["label"] in none_like for e in edges)
+                if not ok and not s["lhs"]["p"]:
+                    # built ahead of the decision as a default (`result.map_or(Err(Timeout), ..)`, wrapped in Err(..) on the
+                    # way): what counts is where the value is *used* — every use sits under the no-result edge
+                    holders = {s["lhs"]["l"]}
+                    uses = []
+                    for _round in range(3):
+                        for i2, blk2 in enumerate(b.blocks):
+                            if not g.live(i2):
+                                continue
+                            for j2, s2 in enumerate(blk2["stmts"]):
+                                if s2["k"] != "assign" or (i2, j2) == (i, j):
+                                    continue
+                                rv2 = s2["rv"]
+                                ops2 = [rv2["op"]] if rv2["k"] in ("use", "cast") else rv2.get("ops", []) if rv2["k"] == "agg" else []
+                                for o2 in ops2:
+                                    pl2 = o2.get("move") or o2.get("copy")
+                                    if pl2 is not None and not pl2["p"] and pl2["l"] in holders:
+                                        if rv2["k"] == "agg" and not any(e2["kind"] == "enum" and e2["label"] in none_like for e2 in dominating_edges(tr, b, i2)):
+                                            holders.add(s2["lhs"]["l"])      # wrapped eagerly as well (Err(Timeout)): follow the wrapper
+                                        elif (i2, j2) not in uses:
+                                            uses.append((i2, j2))
+                            t2 = blk2["term"]
+                            if t2["k"] == "call":
+                                for a2 in t2["args"]:
+                                    pl2 = a2.get("move") or a2.get("copy")
+                                    if pl2 is not None and not pl2["p"] and pl2["l"] in holders and (i2, -1) not in uses:
+                                        uses.append((i2, -1))
+                    ok = bool(uses) and all(any(e2["kind"] == "enum" and e2["label"] in none_like for e2 in dominating_edges(tr, b, i2)) for (i2, _j2) in uses)
                 rep.ob("C06.MAPPING", skey(b, "Timeout#%d" % nerr), ok, g.where(i, j),
                        "the timeout error is constructed only when no inner result arrived (None of timeout().ok() / the race)" if ok else
                        "the timeout error can be constructed although an inner result arrived")
